@@ -948,6 +948,36 @@ fn opt_bytes(b: &Option<Vec<u8>>) -> Item {
     }
 }
 
+/// Order in which the crate emits the typed entries of its three map types.  No property fixes
+/// that order (C11 compares maps modulo entry order), so it is *probed* from the crate once per
+/// process (`capi::probe_orders`) and the model then emits in the same order; the default is the
+/// natural order.
+#[derive(Clone, Debug)]
+pub struct Orders {
+    pub header: Vec<i64>,
+    pub key: Vec<i64>,
+    pub claims: Vec<i64>,
+}
+
+pub static ORDERS: std::sync::OnceLock<Orders> = std::sync::OnceLock::new();
+
+fn reorder(typed: Vec<(Item, Item)>, order: Option<&Vec<i64>>) -> Vec<(Item, Item)> {
+    match order {
+        None => typed,
+        Some(o) => {
+            let mut out = Vec::new();
+            let mut rest = typed;
+            for l in o {
+                if let Some(pos) = rest.iter().position(|(k, _)| *k == Item::int(*l)) {
+                    out.push(rest.remove(pos));
+                }
+            }
+            out.extend(rest);
+            out
+        }
+    }
+}
+
 pub fn enc_header(h: &MHeader) -> Item {
     let mut m: Vec<(Item, Item)> = Vec::new();
     if let Some(a) = &h.alg {
@@ -973,6 +1003,7 @@ pub fn enc_header(h: &MHeader) -> Item {
     } else if h.csigs.len() > 1 {
         m.push((Item::int(7), Item::Array(h.csigs.iter().map(enc_signature).collect())));
     }
+    let mut m = reorder(m, ORDERS.get().map(|o| &o.header));
     for (l, v) in &h.rest {
         m.push((l.item(), v.clone()));
     }
@@ -1019,6 +1050,7 @@ pub fn enc_key(k: &MKey) -> Item {
     if !k.base_iv.is_empty() {
         m.push((Item::int(5), Item::Bytes(k.base_iv.clone())));
     }
+    let mut m = reorder(m, ORDERS.get().map(|o| &o.key));
     for (l, v) in &k.params {
         m.push((l.item(), v.clone()));
     }
@@ -1055,6 +1087,7 @@ pub fn enc_claims(c: &MClaims) -> Item {
     if let Some(x) = &c.cti {
         m.push((Item::int(7), Item::Bytes(x.clone())));
     }
+    let mut m = reorder(m, ORDERS.get().map(|o| &o.claims));
     for (l, v) in &c.rest {
         m.push((l.item(), v.clone()));
     }
